@@ -530,14 +530,34 @@ def walk(n):
     for c in n.children():
         yield from walk(c)
 
+def depth(n):
+    return 1 + max([0] + [depth(c) for c in n.children()])
+
+def heavy(node):
+    """shapes CBMC does not finish within 10 min here (measured; see DESIGN R14): any Enum node
+    (values of Schema::Enum are not constant-propagated: even a fully concrete layout_compatible of
+    two empty enums does not finish in 100 s while the struct analogue takes 1 s), chains of depth
+    >= 3, structs nested in structs."""
+    if any(isinstance(c, Enum) for c in walk(node)): return True
+    if depth(node) >= 3: return True
+    return False
+
+def tier_of(kind, tier, name, node):
+    if heavy(node): return "x"
+    if kind in ("c13s", "c13z", "c06s"):
+        if isinstance(node, TraitLike) and node.methods and kind != "c13z": return "t"
+        if isinstance(node, Struct) and node.fields: return "t"
+    if kind == "c13d" and isinstance(node, TraitLike) and node.methods: return "x"   # diff of trait definitions with methods: > 10 min
+    return tier
+
 def emit():
     S = catalogue()
     out = [HDR.replace("[u8; 256]", "[u8; REFCAP2]").replace("[0u8; 256]", "[0u8; REFCAP2]")]
     out.append("pub const REFCAP2: usize = 256;\npub struct RefBuf2 { pub b: [u8; REFCAP2], pub n: usize }\nimpl RefBuf2 {\n    pub fn new() -> RefBuf2 { RefBuf2 { b: [0u8; REFCAP2], n: 0 } }\n    #[inline(always)]\n    pub fn put(&mut self, bytes: &[u8]) { let l = bytes.len(); self.b[self.n..self.n + l].copy_from_slice(bytes); self.n += l; }\n}\n")
     cat = []
-    mods = {"c13s": {"q": [], "t": []}, "c13z": {"q": [], "t": []}, "c13d": {"q": [], "t": []}, "c11l": {"q": [], "t": []}, "c06s": {"q": [], "t": []}}
+    mods = {m: {"q": [], "t": [], "x": []} for m in ("c13s", "c13z", "c13d", "c11l", "c06s")}
     for (tier, name, node) in S:
-        cat.append({"shape": name, "tier": tier, "desc": node.desc(), "nodes": node.size()})
+        cat.append({"shape": name, "tier": ("x (out of reach)" if heavy(node) else tier), "desc": node.desc(), "nodes": node.size()})
         uw = unwind_for(node)
         # ---- C13 (a)+(b): write == reference bytes, read(reference) == schema, f in {1,2}
         for f in (1, 2):
@@ -556,7 +576,7 @@ def emit():
             body.append("let expect: Schema = %s;" % i_build(node, i, f))
             body.append('assert!(crate::scmp::schema_same(&s2, &expect), "C13: schema read back differs from the schema written");')
             body += ["std::mem::forget(s); std::mem::forget(s2); std::mem::forget(expect);", 'kani::cover!(true, "reached end");']
-            mods["c13s"][tier].append("kproof!(%s_f%d, %d, {\n        %s\n    });" % (name, f, uw, "\n        ".join(body)))
+            mods["c13s"][tier_of("c13s", tier, name, node)].append("kproof!(%s_f%d, %d, {\n        %s\n    });" % (name, f, uw, "\n        ".join(body)))
         # ---- C13 format 0: reference bytes in the original layout decode to the erased schema
         ctx = Ctx("a")
         i = node.inst(ctx)
@@ -566,7 +586,7 @@ def emit():
         body.append("let expect: Schema = %s;" % i.erased)
         body.append('assert!(crate::scmp::schema_same(&s2, &expect), "C13: format-0 schema section decodes to a different schema");')
         body += ["std::mem::forget(s2); std::mem::forget(expect);", 'kani::cover!(true, "reached end");']
-        mods["c13z"][tier].append("kproof!(%s_f0, %d, {\n        %s\n    });" % (name, uw, "\n        ".join(body)))
+        mods["c13z"][tier_of("c13z", tier, name, node)].append("kproof!(%s_f0, %d, {\n        %s\n    });" % (name, uw, "\n        ".join(body)))
         # ---- C13 diff: same shape, independent leaves: diff is None <=> oracle (non-trait shapes); traits: reflexive only
         ca, cb = Ctx("a"), Ctx("b")
         ia, ib = node.inst(ca), node.inst(cb)
@@ -579,13 +599,13 @@ def emit():
             body.append("let expect_same: bool = %s;" % w)
             body.append('assert!(d.is_none() == expect_same, "C13: diff_schema verdict differs from the wire-layout oracle");')
             body += ["std::mem::forget(d); std::mem::forget(sa); std::mem::forget(sb);", 'kani::cover!(true, "reached end");']
-            mods["c13d"][tier].append("kproof!(%s_pair, %d, {\n        %s\n    });" % (name, uw, "\n        ".join(body)))
+            mods["c13d"][tier_of("c13d", tier, name, node)].append("kproof!(%s_pair, %d, {\n        %s\n    });" % (name, uw, "\n        ".join(body)))
         else:
             body = ca.decls() + ["let sa: Schema = %s;" % ia.build, "let sb: Schema = sa.clone();"]
             body.append("let d = diff_schema(&sa, &sb, String::new(), %s);" % rp)
             body.append('assert!(d.is_none(), "C13: diff_schema reports a difference between a schema and itself");')
             body += ["std::mem::forget(d); std::mem::forget(sa); std::mem::forget(sb);", 'kani::cover!(true, "reached end");']
-            mods["c13d"][tier].append("kproof!(%s_refl, %d, {\n        %s\n    });" % (name, uw, "\n        ".join(body)))
+            mods["c13d"][tier_of("c13d", tier, name, node)].append("kproof!(%s_refl, %d, {\n        %s\n    });" % (name, uw, "\n        ".join(body)))
         # ---- C13 single-change family (both argument orders)
         if not node.has_trait():
             for (label, en) in edits(node):
@@ -600,7 +620,7 @@ def emit():
                 body.append('assert!(d1.is_none() == expect_same, "C13: a wire-layout change is not reported by diff_schema(memory, file)");')
                 body.append('assert!(d2.is_none() == expect_same, "C13: a wire-layout change is not reported by diff_schema(file, memory)");')
                 body += ["std::mem::forget(d1); std::mem::forget(d2); std::mem::forget(sa); std::mem::forget(sb);", 'kani::cover!(true, "reached end");']
-                mods["c13d"][tier].append("kproof!(%s_edit_%s, %d, {\n        %s\n    });" % (name, label, uw, "\n        ".join(body)))
+                mods["c13d"][tier_of("c13d", tier, name, node)].append("kproof!(%s_edit_%s, %d, {\n        %s\n    });" % (name, label, uw, "\n        ".join(body)))
                 # C11: an edited shape is never layout compatible unless the oracle says so
                 le = layout_eq(ia, ib)
                 body = ca.decls() + cb.decls()
@@ -611,7 +631,7 @@ def emit():
                 body.append('assert!(!c1 || identical, "C11: layout_compatible accepts layouts that are not provably identical");')
                 body.append('assert!(!c2 || identical, "C11: layout_compatible accepts layouts that are not provably identical (swapped)");')
                 body += ["std::mem::forget(sa); std::mem::forget(sb);", 'kani::cover!(true, "reached end");']
-                mods["c11l"][tier].append("kproof!(%s_edit_%s, %d, {\n        %s\n    });" % (name, label, uw, "\n        ".join(body)))
+                mods["c11l"][tier_of("c11l", tier, name, node)].append("kproof!(%s_edit_%s, %d, {\n        %s\n    });" % (name, label, uw, "\n        ".join(body)))
         # ---- C11: same shape, independent leaves: compatible => oracle
         ca, cb = Ctx("a"), Ctx("b")
         ia, ib = node.inst(ca), node.inst(cb)
@@ -624,7 +644,7 @@ def emit():
         if le not in (FALSE,):
             body.append('kani::cover!(c, "some assignment of the leaves is accepted as compatible");')
         body += ["std::mem::forget(sa); std::mem::forget(sb);", 'kani::cover!(true, "reached end");']
-        mods["c11l"][tier].append("kproof!(%s_pair, %d, {\n        %s\n    });" % (name, uw, "\n        ".join(body)))
+        mods["c11l"][tier_of("c11l", tier, name, node)].append("kproof!(%s_pair, %d, {\n        %s\n    });" % (name, uw, "\n        ".join(body)))
         # ---- C06: numeric payload bytes of a schema section symbolic (structure bytes concrete): reader never panics
         for f in (2,):
             ctx = Ctx("a")
@@ -644,7 +664,7 @@ def emit():
             body.append("    Err(e) => std::mem::forget(e),")
             body.append("}")
             body.append('kani::cover!(true, "reached end");')
-            mods["c06s"][tier].append("kproof!(%s_f%d, %d, {\n        %s\n    });" % (name, f, uw, "\n        ".join(body)))
+            mods["c06s"][tier_of("c06s", tier, name, node)].append("kproof!(%s_f%d, %d, {\n        %s\n    });" % (name, f, uw, "\n        ".join(body)))
     for m, tiers in mods.items():
         out.append("pub mod %s {\n    use super::*;" % m)
         for t, hs in tiers.items():
